@@ -285,7 +285,7 @@ def plan(tier, seed):
         shards += [{'seed': seed, 'shard': 100 + s, 'n': 4, 'nact': 2000,
                     'maxs': 40} for s in range(2)]
         return shards
-    return [{'seed': seed, 'shard': s, 'n': 6, 'nact': 140, 'maxs': 10}
+    return [{'seed': seed, 'shard': s, 'n': 20, 'nact': 160, 'maxs': 10}
             for s in range(n)]
 
 
